@@ -45,3 +45,37 @@ Example C08_ac3_example :
   (let '(d, rs) := dec_run ac3_parse dinit (f6_start :: empties 11 3) in (retained d, rs))
   = ((5, 4), [DMore; DMore; DMore; DMore]).
 Proof. vm_compute. reflexivity. Qed.
+
+(* ---- the translated kernels (tools/go2coq, regenerated from the Go source on every run) ----
+   The length tests and the size bookkeeping of rtpac3/decoder.go - len(pkt.Payload) < 2, len(buf) < size and
+   len(buf) == 0 of the frame-type-0 loop, d.fragmentsSize = le, d.fragmentsExpected = size - le, d.fragmentsSize += le,
+   d.fragmentsExpected -= le, d.fragmentsExpected < 0, d.fragmentsExpected > 0 - ARE the formulas of Model.dec /
+   agg_loop (fragmentsExpected is a Z in the model: the Go int does go negative). *)
+From Coq Require Import ZArith.
+From GVG Require Import Kern.
+From GV_ac3 Require Import BridgeLib Bridge.
+Open Scope Z_scope.
+
+Theorem C08_ac3_kernels_are_the_code : forall (pl buf : bytes) (size fs le : N) (e : Z),
+  Z.of_N size < i64max -> Z.of_N (fs + le) < i64max -> - i64max <= e - Z.of_N le -> e < i64max ->
+  k_ac3_dec_short (Z.of_N (nlen pl)) = match pl with _ :: _ :: _ => false | _ => true end /\
+  k_ac3_dec_fshort (Z.of_N (nlen buf)) (Z.of_N size) = (nlen buf <? size)%N /\
+  k_ac3_dec_done (Z.of_N (nlen (ndrop size buf))) = match ndrop size buf with [] => true | _ :: _ => false end /\
+  k_ac3_dec_first (Z.of_N le) = Z.of_N le /\
+  k_ac3_dec_exp0 (Z.of_N size) (Z.of_N le) = Z.of_N size - Z.of_N le /\
+  k_ac3_dec_acc (Z.of_N fs) (Z.of_N le) = Z.of_N (fs + le) /\
+  k_ac3_dec_exp e (Z.of_N le) = e - Z.of_N le /\
+  k_ac3_dec_toobig (k_ac3_dec_exp e (Z.of_N le)) = (e - Z.of_N le <? 0) /\
+  k_ac3_dec_more (k_ac3_dec_exp e (Z.of_N le)) = (0 <? e - Z.of_N le).
+Proof. exact caps_kernels_are_the_code. Qed.
+Print Assumptions C08_ac3_kernels_are_the_code.
+
+(* 1 byte is too short, 2 are not; a fragment that completes the frame exactly leaves 0 expected (neither < 0 nor > 0),
+   one byte more is "too big", one byte less needs more packets *)
+Example C08_ac3_example_kernels :
+  k_ac3_dec_short 1 = true /\ k_ac3_dec_short 2 = false /\
+  k_ac3_dec_fshort 99 100 = true /\ k_ac3_dec_fshort 100 100 = false /\ k_ac3_dec_done 0 = true /\ k_ac3_dec_done 1 = false /\
+  k_ac3_dec_exp0 1536 1446 = 90 /\ k_ac3_dec_acc 1446 90 = 1536 /\
+  k_ac3_dec_toobig (k_ac3_dec_exp 90 90) = false /\ k_ac3_dec_more (k_ac3_dec_exp 90 90) = false /\
+  k_ac3_dec_toobig (k_ac3_dec_exp 90 91) = true /\ k_ac3_dec_more (k_ac3_dec_exp 90 89) = true.
+Proof. vm_compute. repeat split. Qed.
